@@ -184,6 +184,20 @@ func (s *c05Stream) RecvMsg(m interface{}) error {
 		p.Graph = s.query.Graph
 		p.Query = s.query.Query
 		return nil
+	// the request types of the other server streams: the wire carries the graph name
+	case *gripql.GraphID:
+		p.Graph = s.query.Graph
+		return nil
+	case *gripql.QueryJob:
+		p.Graph = s.query.Graph
+		p.Id = "job"
+		return nil
+	case *gripql.ExtendQuery:
+		p.Graph = s.query.Graph
+		p.SrcId = "job"
+		return nil
+	case *gripql.Empty:
+		return nil
 	case *gripql.GraphElement:
 		if s.pos >= len(s.elems) {
 			return io.EOF
